@@ -434,7 +434,7 @@ namespace bluetoe {
         class value_impl : public details::value_impl_base< Options... >
         {
         public:
-            static constexpr bool has_read_access  = true;
+            static constexpr bool has_read_access  = !details::has_option< no_read_access, Options... >::value;
             static constexpr bool has_write_access = false;
             static constexpr bool has_write_without_response = false;
             static constexpr bool has_notification = false;
@@ -450,6 +450,9 @@ namespace bluetoe {
 
                 if ( args.type != details::attribute_access_type::read )
                     return details::attribute_access_result::write_not_permitted;
+
+                if ( !has_read_access )
+                    return details::attribute_access_result::read_not_permitted;
 
                 const char* value  = static_cast< const char* >( static_cast< const void* >( Text::value() ) );
                 std::size_t length = Text::size();
